@@ -217,6 +217,25 @@ example : latParse (latStr [⟨0, 0, 1, .charspan 0 3, [1], "a\"\\".toList, none
     = some [⟨0, 0, 1, .charspan 0 3, [1], "a\"\\".toList, none, 0⟩] :=
   yy_roundtrip _ (by intro t ht; simp at ht; subst ht; exact ⟨by simp, by simp [L.LnkOk]⟩)
 
+/-- The two hypotheses of `yy_roundtrip` are necessary: a token whose span is `<-1:-1>` is written without
+its span (`Lnk.__bool__` is False for it) and comes back with the default Lnk; a token with an empty `paths`
+list is written with path `1` (`self.paths or [1]`) and comes back with `[1]`. -/
+theorem yy_roundtrip_hypotheses_necessary :
+    latParse (latStr [⟨0, 0, 1, .charspan (-1) (-1), [1], "a".toList, none, 0⟩])
+      = some [⟨0, 0, 1, .unspec, [1], "a".toList, none, 0⟩]
+    ∧ latParse (latStr [⟨0, 0, 1, .charspan 0 1, [], "a".toList, none, 0⟩])
+      = some [⟨0, 0, 1, .charspan 0 1, [1], "a".toList, none, 0⟩] := by decide
+
+/-- Outside the round trip, observed on the real parser: `_yy_re` accepts a paths text with two integers
+glued together (`3 10-2`), `d['paths'].strip().split()` then yields the piece `10-2` and `int()` raises
+ValueError — the model says so (`MT.valueError`), and what `YYToken.__str__` writes never has that shape
+(`L.pathsGlued_join`, used by `yy_roundtrip`). -/
+theorem yy_glued_paths_valueError :
+    matchTok "(1, 0, 1, 3 10-2, \"a\", 0, \"null\")".toList = .valueError
+    ∧ latParse "(1, 0, 1, 3 10-2, \"a\", 0, \"null\")".toList = none
+    ∧ latParse "(1, 0, 1, 3 10 -2, \"a\", 0, \"null\")".toList
+        = some [⟨1, 0, 1, .unspec, [3, 10, -2], "a".toList, none, 0⟩] := by decide
+
 /-- Pins: the constants of the anchored code that the models of C14 hand-code (harness/c14.py
 `tables()`), read from the live modules on every run.
 * `c14MergemapConsts`, `c14TraceConsts` (`startmap[0] = 1`, `endmap[-1] = -1`), `c14ZeromapConsts`
